@@ -67,11 +67,11 @@ SCOPE = ("R1 inverse(forward(x)) = x; R2 the two reported log-Jacobians sum to z
          "is the same at two independent points (reported log-Jacobian = log|det J| + constant); R4 prime prior support / prior-Jacobian consistency where a prime prior exists.")
 ASSUMPTIONS = [
     "exact real arithmetic; exp/log through their algebraic laws (C02)",
-    "trigonometric axioms, instantiated on the terms that occur: sin^2+cos^2=1; sin > 0 on (0, pi) and cos > 0 on (-pi/2, pi/2) for the zenith / declination angle; arctan2(y,x)=phi => -pi<phi<=pi, rho cos phi = x, rho sin phi = y with rho>=0, rho^2=x^2+y^2; (cos a, sin a) = (cos b, sin b) => a-b in 2 pi Z; the double nearest to pi is treated as pi",
+    "trigonometric axioms, instantiated on the terms that occur: sin^2+cos^2=1; sin(-t) = -sin(t), cos(-t) = cos(t); exp is monotone on whole exponents (t=0 => exp(t)=1, t>0 => exp(t)>1); sin > 0 on (0, pi) and cos > 0 on (-pi/2, pi/2) for the zenith / declination angle; arctan2(y,x)=phi => -pi<phi<=pi, rho cos phi = x, rho sin phi = y with rho>=0, rho^2=x^2+y^2; (cos a, sin a) = (cos b, sin b) => a-b in 2 pi Z; the double nearest to pi is treated as pi",
     "sqrt(u) is the non-negative root",
     "the random choice of which points are reflected (inversion 'split', ToCartesian 'split') is arbitrary (forked)",
 ]
-OUTSIDE = ["non-integer powers of the GW power-law distance converter; DistanceReparameterisation without boundary_inversion (the constructor raises AttributeError)", "the prime priors of ToCartesian / AnglePair", "the comoving-distance converter of the GW reparameterisations (astropy, spline tables)", "detect_edge's histogram heuristic (its result is a symbolic choice through the code's own test= hook)",
+OUTSIDE = ["non-integer powers of the GW power-law distance converter; DistanceReparameterisation without boundary_inversion (the constructor raises AttributeError)", "the comoving-distance converter of the GW reparameterisations (astropy, spline tables)", "detect_edge's histogram heuristic (its result is a symbolic choice through the code's own test= hook)",
            "rounding near the bounds (the eps clip of logit is a branch, not measured)", "combinations of more than two reparameterisations"]
 
 PARALLEL_UNITS = True
@@ -561,6 +561,85 @@ def make_angle_pair(convention, radial):
     return body
 
 
+def make_angle_pair_prior(convention):
+    """AnglePair with the isotropic prime prior: N(0, I_3) density = isotropic angles x chi(3) radius / Jacobian, exactly."""
+    def body(ctx):
+        from nessai.reparameterisations.angle import AnglePair
+        snp = _snp(ctx)
+        pi = _pi(ctx)
+        if convention == "az-zen":
+            vb, vlo, vhi, conv = [0.0, pi], 0.0, pi, None
+        else:
+            # convention detected from the bounds (the table of the explicit option holds doubles bound at import time)
+            vb, vlo, vhi, conv = [-pi / 2, pi / 2], -pi / 2, pi / 2, None
+        rp = AnglePair(parameters=["h", "v"], prior_bounds={"h": [0.0, 2 * pi], "v": vb}, prior="isotropic", convention=conv)
+        rp.chi = _Chi(ctx)
+        hv = ctx.real("h0", 0, 7)
+        ctx.assume((hv > 0) & (hv < 2 * pi))
+        vv = ctx.real("v0", -4, 4)
+        ctx.assume((vv > vlo) & (vv < vhi))
+        dens = snp.sin(vv) if convention == "az-zen" else snp.cos(vv)
+        if ctx.mode == "sym":
+            ctx.axiom(dens > 0)
+        x = _struct(ctx, list(rp.parameters), 1)
+        x[rp.parameters[0]][0], x[rp.parameters[1]][0] = hv, vv
+        xp = _struct(ctx, list(rp.prime_parameters), 1)
+        x, xp, lj = rp.reparameterise(x, xp, _zeros(ctx, 1))
+        r = rp.chi.drawn[0]
+        lp = rp.x_prime_log_prior(xp)
+        lp = lp[0] if np.ndim(lp) else lp
+        # isotropic angles: density sin(zenith) / (4 pi) [cos(declination)]; chi with 3 degrees of freedom: sqrt(2/pi) r^2 exp(-r^2/2)
+        want = snp.log(dens) + 2 * snp.log(r) - r * r / 2 - lj[0]
+        if getattr(ctx, "mutant", None) == "prior":
+            want = want + r
+        # constant: log(1/(4 pi)) + log(sqrt(2/pi)) = -1.5 log(2 pi), the code's own constant
+        ctx.prove_eq(lp + 1.5 * snp.log(2 * pi), want, "R4 prime prior = original prior / Jacobian (up to a point-independent constant)")
+        ctx.cover("end")
+    return body
+
+
+def make_to_cartesian_prior(mode, kind):
+    """ToCartesian with a prime prior: prime prior - (original prior - reported log-Jacobian) is the same at every point and on every mirror copy."""
+    def body(ctx):
+        from nessai.reparameterisations.angle import ToCartesian
+        snp = _snp(ctx)
+        pi = _pi(ctx)
+        if kind == "sine":
+            lo, hi = 0.0, pi
+        else:
+            lo, hi = ctx.real("lo", -3, 3), ctx.real("hi", -3, 3)
+            ctx.assume(lo < hi)
+        rp = ToCartesian(parameters=["a"], prior_bounds={"a": [lo, hi]}, mode=mode, scale=pi, prior=kind)
+        rp.chi = _Chi(ctx)
+        # duplicate: one point and its mirror copy (two points and their copies are beyond the solver with the sine prior)
+        n = 1 if (mode == "duplicate" and kind == "sine") else 2
+        A = []
+        x = _struct(ctx, list(rp.parameters), n)
+        for i in range(n):
+            a = ctx.real(f"a{i}", -3, 4)
+            ctx.assume((a > lo) & (a < hi))
+            if kind == "sine" and ctx.mode == "sym":
+                ctx.axiom(snp.sin(a) > 0)
+            A.append(a)
+            x["a"][i] = a
+        xp = _struct(ctx, list(rp.prime_parameters), n)
+        x, xp, lj = rp.reparameterise(x, xp, _zeros(ctx, n))
+        m = len(xp)
+        lp = rp.x_prime_log_prior(_strip(ctx, xp))
+        cs = []
+        for k in range(m):
+            i = k % n
+            r = rp.chi.drawn[k]
+            prior = (snp.log(snp.sin(A[i]) / 2) if kind == "sine" else 0.0) + snp.log(r) - r * r / 2
+            c = (lp[k] if np.ndim(lp) else lp) - (prior - _plain(lj[k]))
+            ctx.prove(ctx.valid(c > -math.inf) if ctx.mode == "sym" else c > -math.inf, "R4 points of the prior box are inside the support of the prime prior")
+            cs.append(c)
+        for k in range(1, m):
+            ctx.prove_eq(cs[k], cs[0], "R4 prime prior = original prior / Jacobian up to a point-independent constant")
+        ctx.cover("end")
+    return body
+
+
 def make_delta_phase():
     """GW: delta_phase = phase + sign(cos theta_jn) * psi, inverse modulo 2 pi."""
     def body(ctx):
@@ -705,6 +784,13 @@ def units(tier):
     for conv in ("az-zen", "ra-dec"):
         for radial in (True, False):
             us.append(Unit(f"angle_pair[{conv},radial={radial}]", make_angle_pair(conv, radial), MODS, opts, expect_cover=["end"], twin_runs=10, witness_every=2, nproc=1, time_budget_s=600))
+    for conv in ("az-zen", "ra-dec"):
+        us.append(Unit(f"angle_pair_prime_prior[{conv}]", make_angle_pair_prior(conv), MODS, dict(opts, exp_axioms="full"), expect_cover=["end"], mutants=["prior"] if conv == "az-zen" else [],
+                       twin_runs=10, witness_every=1, nproc=1, time_budget_s=600))
+    for mode in ("duplicate", "split", "half"):
+        for kind in ("uniform", "sine"):
+            us.append(Unit(f"to_cartesian_prime_prior[{mode},{kind}]", make_to_cartesian_prior(mode, kind), MODS, dict(opts, exp_axioms="full"), expect_cover=["end"],
+                           twin_runs=10, witness_every=1, nproc=1, time_budget_s=600))
     gw_mods = MODS + ["nessai.gw.reparameterisations", "nessai.gw.utils"]
     us.append(Unit("gw_delta_phase", make_delta_phase(), gw_mods, opts, expect_cover=["end"], twin_runs=20, witness_every=1, nproc=1, time_budget_s=600))
     for power in (1, 2):
